@@ -316,6 +316,17 @@ func CreateInjector(metaData *MetaData, build *BuildDirective, varPool *VarPool)
 		return nil, fmt.Errorf("build injector: %w", err)
 	}
 
+	// An injector with goroutines declares its values in a var block and writes their types out: a
+	// value of a type the package cannot name has no place there (without goroutines it is bound with :=).
+	if hasChainStmts(injector) {
+		for _, v := range injector.Vars {
+			if obj := inaccessibleTypeName(v.Type(), metaData.Package.Path); obj != nil {
+				return nil, fmt.Errorf("a value of type %s has to be declared by the injector (it starts goroutines), but %s.%s is not accessible from %s",
+					v.Type(), obj.Pkg().Path(), obj.Name(), metaData.Package.Path)
+			}
+		}
+	}
+
 	return injector, nil
 }
 
@@ -803,6 +814,12 @@ func (g *Graph) injectContextArg(injector *Injector, metaData *MetaData, varPool
 }
 
 func (g *Graph) autoAddMissingDependencies(metaData *MetaData, t types.Type, varPool *VarPool) (*node, error) {
+	// A parameter's type is written out: a type the package cannot name cannot become a parameter.
+	if obj := inaccessibleTypeName(t, metaData.Package.Path); obj != nil {
+		return nil, fmt.Errorf("no provider for %s, and it cannot be a parameter of the injector: %s.%s is not accessible from %s",
+			t, obj.Pkg().Path(), obj.Name(), metaData.Package.Path)
+	}
+
 	// Auto-detect missing dependency and create an argument for it
 	expr, err := createASTTypeExpr(metaData.Package.Path, t, varPool, metaData.Imports)
 	if err != nil {
@@ -1323,4 +1340,66 @@ func (g *Graph) buildPoolStmtsSimple(pool []*node) ([]InjectorStmt, error) {
 	}
 
 	return stmts, nil
+}
+
+// inaccessibleTypeName returns a type name in the spelling of t that code of package pkg cannot refer to:
+// an unexported name of another package, or a name of an internal package of another tree; nil if there is none.
+func inaccessibleTypeName(t types.Type, pkg string) *types.TypeName {
+	check := func(obj *types.TypeName, args *types.TypeList) *types.TypeName {
+		if objPkg := obj.Pkg(); objPkg != nil && objPkg.Path() != pkg {
+			if !obj.Exported() {
+				return obj
+			}
+			// a/b/internal/c can be imported from a/b and below only
+			if i := strings.LastIndex(objPkg.Path()+"/", "/internal/"); i >= 0 {
+				if parent := objPkg.Path()[:i]; pkg != parent && !strings.HasPrefix(pkg, parent+"/") {
+					return obj
+				}
+			}
+		}
+		for arg := range args.Types() {
+			if found := inaccessibleTypeName(arg, pkg); found != nil {
+				return found
+			}
+		}
+		return nil
+	}
+
+	switch typ := t.(type) {
+	case *types.Named:
+		return check(typ.Obj(), typ.TypeArgs())
+	case *types.Alias:
+		return check(typ.Obj(), typ.TypeArgs())
+	case *types.Pointer:
+		return inaccessibleTypeName(typ.Elem(), pkg)
+	case *types.Slice:
+		return inaccessibleTypeName(typ.Elem(), pkg)
+	case *types.Array:
+		return inaccessibleTypeName(typ.Elem(), pkg)
+	case *types.Chan:
+		return inaccessibleTypeName(typ.Elem(), pkg)
+	case *types.Map:
+		if found := inaccessibleTypeName(typ.Key(), pkg); found != nil {
+			return found
+		}
+		return inaccessibleTypeName(typ.Elem(), pkg)
+	case *types.Signature:
+		for v := range typ.Params().Variables() {
+			if found := inaccessibleTypeName(v.Type(), pkg); found != nil {
+				return found
+			}
+		}
+		for v := range typ.Results().Variables() {
+			if found := inaccessibleTypeName(v.Type(), pkg); found != nil {
+				return found
+			}
+		}
+	case *types.Struct:
+		for field := range typ.Fields() {
+			if found := inaccessibleTypeName(field.Type(), pkg); found != nil {
+				return found
+			}
+		}
+	}
+	return nil
 }
